@@ -11,10 +11,10 @@
   the harness asserts). `E` is the set of event buffers submitted so far (any superset works).
 
   OBLIGATIONS (audited by `check` with `#print axioms`):
-    chunk_invariant, records_wellformed, torn_only_after_fault, acked_durable, acked_never_lost,
+    chunk_invariant, records_wellformed, torn_only_after_fault, calm_plan_no_torn, acked_durable, acked_never_lost,
     failed_batch_rewritten, reuse_recovers, recovery_separator_first
 -/
-import EmitModel.Lemmas.FileSetRun
+import EmitModel.Lemmas.FileSetCalm
 
 namespace EmitModel.C10
 open EmitModel.FileSet
@@ -61,6 +61,17 @@ theorem torn_only_after_fault {cfg : Config} {E : List Nat → Prop} {c : Nat} (
   · exact .inl h
   · exact .inr h
   · rw [hcalm] at ht; cases ht
+
+/-- The flag means what it says: under any fault plan that only makes calls fail (errors at any calls, but no
+    short write and no crash), from a state without torn records, every record of every file of the set in every
+    reachable state is empty or a complete event — plain IO errors never tear or mangle anything. -/
+theorem calm_plan_no_torn {cfg : Config} {E : List Nat → Prop} {c : Nat} (hsep : cfg.sep = [c])
+    (hwf : WfEvents E c) (plan : Nat → Fault) (hplan : ∀ i, plan i = .ok ∨ plan i = .err) (ops : List Op) (s0 : St)
+    (h0 : Inv cfg E c s0) (hf0 : s0.faulted = false) (hE : ∀ op ∈ ops, ∀ e ∈ op.events, E e)
+    (n : List Nat) (f : File) (hget : fsGet (run cfg plan s0 ops).fs n = some f)
+    (hmem : isMember cfg.pfx cfg.ext n = true) :
+    ∀ r ∈ splitOn c f.content, r = [] ∨ E (r ++ [c]) :=
+  torn_only_after_fault hsep hwf plan ops s0 h0 hE ((run_calm cfg hplan ops s0).trans hf0) n f hget hmem
 
 /-- **Acknowledged events are durable.** If `on_batch` returns Ok (under any fault plan, from any state satisfying
     the invariant) then all events of the batch went to ONE file of the set — the one the worker now holds — whose
